@@ -5,6 +5,7 @@ From Coq Require Import String Ascii List Bool ZArith Lia.
 From Raven Require Import Base.GoStr Model.Store Model.Ops Spec.UidSpec Proof.StoreInv Proof.OpsInv.
 Import ListNotations.
 Local Open Scope Z_scope.
+Local Opaque step_class.
 
 Fixpoint Clean (s : store) (h : list op) : Prop :=
   match h with
@@ -51,19 +52,29 @@ Proof.
     apply IH; auto. apply G.
 Qed.
 
-Lemma Inv_init5 t1 t2 t3 t4 t5 : Inv (init5 t1 t2 t3 t4 t5).
+Lemma Inv_empty : Inv empty_store.
 Proof.
   constructor; simpl.
-  - repeat constructor; simpl; intuition discriminate.
-  - repeat constructor; simpl; intuition discriminate.
+  - constructor.
+  - constructor.
   - constructor.
   - intros l [].
   - intros m l _ [].
   - intros e [].
-  - intros m H. repeat (destruct H as [<-|H]; [simpl; tauto|]). destruct H.
+  - intros m [].
   - intros e1 e2 [].
-  - intros m e _ [].
+  - intros m e [].
+  - intros l [].
 Qed.
+
+Lemma Inv_create_or_same s n t : Inv s -> Inv (create_or_same s n t).
+Proof.
+  intros I. unfold create_or_same. destruct (create_mailbox_row s n t) as [[s' id]|] eqn:C; [|exact I].
+  apply (create_row_good s n t s' id I C).
+Qed.
+
+Lemma Inv_init5 t1 t2 t3 t4 t5 : Inv (init5 t1 t2 t3 t4 t5).
+Proof. unfold init5. repeat apply Inv_create_or_same. apply Inv_empty. Qed.
 
 (** ---- consequences --------------------------------------------------------- *)
 
